@@ -433,8 +433,8 @@ class PageLayout(object):
 
         print_space_height = 0
         print_space_width = 0
-        print_space_vpos = self.page_size[0]
-        print_space_hpos = self.page_size[1]
+        print_space_vpos = None
+        print_space_hpos = None
 
         for b, block in enumerate(self.regions):
             text_block = ET.SubElement(print_space, "TextBlock")
@@ -446,12 +446,16 @@ class PageLayout(object):
             text_block.set("VPOS", str(int(text_block_vpos)))
             text_block.set("HPOS", str(int(text_block_hpos)))
 
-            print_space_height = max([print_space_vpos + print_space_height, text_block_vpos + text_block_height])
-            print_space_width = max([print_space_hpos + print_space_width, text_block_hpos + text_block_width])
-            print_space_vpos = min([print_space_vpos, text_block_vpos])
-            print_space_hpos = min([print_space_hpos, text_block_hpos])
-            print_space_height = print_space_height - print_space_vpos
-            print_space_width = print_space_width - print_space_hpos
+            if print_space_vpos is None:
+                print_space_height, print_space_width = text_block_height, text_block_width
+                print_space_vpos, print_space_hpos = text_block_vpos, text_block_hpos
+            else:
+                print_space_height = max([print_space_vpos + print_space_height, text_block_vpos + text_block_height])
+                print_space_width = max([print_space_hpos + print_space_width, text_block_hpos + text_block_width])
+                print_space_vpos = min([print_space_vpos, text_block_vpos])
+                print_space_hpos = min([print_space_hpos, text_block_hpos])
+                print_space_height = print_space_height - print_space_vpos
+                print_space_width = print_space_width - print_space_hpos
 
             for l, line in enumerate(block.lines):
                 if not line.transcription or line.transcription.strip() == "":
@@ -564,6 +568,8 @@ class PageLayout(object):
                 if line.transcription_confidence is not None:
                     if line.transcription_confidence < min_line_confidence:
                         text_block.remove(text_line)
+        if print_space_vpos is None:  # page without text blocks
+            print_space_vpos, print_space_hpos = self.page_size[0], self.page_size[1]
         top_margin.set("HEIGHT", "{}" .format(int(print_space_vpos)))
         top_margin.set("WIDTH", "{}" .format(int(self.page_size[1])))
         top_margin.set("VPOS", "0")
